@@ -29,14 +29,14 @@
        want back until the cancel has gone out.
      * Finish: every built entry was withdrawn so the message is empty.  As built sendMessage
        returns without looking at what is still pending; ideal: re-signal if work is pending.
-     * Finish/markSent: see okP.          * DoRefresh: see there.                                *)
+     * Finish/markSent: see FinOkP.   * Finish/shared entries: see MergeDiffers.   * DoRefresh: see there.                                *)
 EXTENDS Integers, Sequences, FiniteSets, TLC
 
 CONSTANTS Cids,      \* a set of integers (calls process CIDs in ascending order)
           MaxOps,    \* bound on producer calls     (model checking only)
           MaxRb,     \* bound on rebroadcast requests
           NProd,     \* producers that can be between their atomic section and their signal
-          AsBuilt    \* subset of {"ReAdd", "Empty", "Refresh", "Mark"}: as-built alternatives enabled in Next
+          AsBuilt    \* subset of {"ReAdd", "Empty", "Refresh", "Mark", "Merge"}: as-built alternatives enabled in Next
 
 VARIABLES bp, bs, pp, ps, bAt, pAt, cancels, seq,     \* protected by wllock
           work, sigs, rbReq,                          \* outgoingWork channel, producers yet to signal, rebroadcastNow
@@ -176,23 +176,40 @@ BuildNone ==     \* nothing was pending
     /\ pc' = "finish" /\ UNCHANGED <<msg, size, doneC, nP, nB>> /\ BuildFrame
 BuildEntry == (\E c \in Cids : BuildCancel(c)) \/ BuildPeer \/ BuildBcst \/ BuildNone
 
-\* second critical section: markSent, withdraw what changed meanwhile
-Finish(ab) ==      \* ab \subseteq {"Empty", "Mark"}: as-built alternatives taken
+\* second critical section: markSent, withdraw what changed meanwhile.
+\* ab \subseteq {"Empty", "Mark", "Merge"}: as-built alternatives taken.
+BuiltP == {snapP[i] : i \in 1..nP}
+BuiltB == {snapB[i] : i \in 1..nB}
+\* markSent: as built pending.RemoveType succeeds whenever SOME removable want for the CID is pending, also a
+\* weaker one added after a cancel in the lock-free window (the message then carries the withdrawn stronger
+\* type); ideal: the pending want must still be of the type that was built.
+FinOkP(ab) == {e \in BuiltP : IF "Mark" \in ab THEN WlCanRemoveType(pp, e.c, e.t) ELSE pp[e.c].t = e.t}
+FinOkB == {e \in BuiltB : WlCanRemoveType(bp, e.c, 1)}
+FinOkC == {c \in doneC : cancels[c] # 0}
+FinGone(ab) == {e.c : e \in (BuiltP \ FinOkP(ab))} \cup {e.c : e \in (BuiltB \ FinOkB)} \cup (doneC \ FinOkC)
+\* what the message entry for c is when built from the surviving parts only
+Rebuilt(c, ab) ==
+    LET m0 == [x \in Cids |-> NoEntry]
+        m1 == IF c \in FinOkC THEN MsgAdd(m0, c, 0, TRUE, 2, FALSE) ELSE m0
+        m2 == IF \E e \in FinOkP(ab) : e.c = c
+              THEN LET e == CHOOSE x \in FinOkP(ab) : x.c = c IN MsgAdd(m1, c, e.k, FALSE, e.t, TRUE) ELSE m1
+        m3 == IF \E e \in FinOkB : e.c = c
+              THEN LET e == CHOOSE x \in FinOkB : x.c = c IN MsgAdd(m2, c, e.k, FALSE, WireType("b", 1), FALSE) ELSE m2
+    IN m3[c]
+\* A peer want and a broadcast want for the same CID share one message entry.  As built, msg.Remove(cid) for
+\* the withdrawn part deletes the shared entry although the other part was just marked as sent (it is then
+\* never transmitted); ideal: the entry keeps what the surviving part contributes.
+MergeDiffers(ab) == \E c \in FinGone(ab) : Rebuilt(c, ab).t # 0
+Finish(ab) ==
     /\ pc = "finish"
-    /\ LET builtP == {snapP[i] : i \in 1..nP}
-           builtB == {snapB[i] : i \in 1..nB}
-           builtC == doneC
-           \* markSent: as built pending.RemoveType succeeds whenever SOME removable want for the CID is pending,
-           \* also a weaker one added after a cancel in the lock-free window (the message then carries the
-           \* withdrawn stronger type); ideal: the pending want must still be the one that was built.
-           okP == {e \in builtP : IF "Mark" \in ab THEN WlCanRemoveType(pp, e.c, e.t) ELSE pp[e.c].t = e.t}
-           okB == {e \in builtB : WlCanRemoveType(bp, e.c, 1)}
-           okC == {c \in builtC : cancels[c] # 0}
-           gone == {e.c : e \in (builtP \ okP)} \cup {e.c : e \in (builtB \ okB)} \cup (builtC \ okC)
+    /\ LET okP == FinOkP(ab)
+           okB == FinOkB
+           okC == FinOkC
+           gone == FinGone(ab)
            pp1 == [c \in Cids |-> IF \E e \in okP : e.c = c THEN None ELSE pp[c]]
            bp1 == [c \in Cids |-> IF \E e \in okB : e.c = c THEN None ELSE bp[c]]
            cn1 == [c \in Cids |-> IF c \in okC THEN 0 ELSE cancels[c]]
-           m1  == [c \in Cids |-> IF c \in gone THEN NoEntry ELSE msg[c]]
+           m1  == [c \in Cids |-> IF c \in gone THEN (IF "Merge" \in ab THEN NoEntry ELSE Rebuilt(c, ab)) ELSE msg[c]]
            pend1 == Cardinality({c \in Cids : bp1[c].t # 0}) + Cardinality({c \in Cids : pp1[c].t # 0})
                     + Cardinality({c \in Cids : cn1[c] # 0})
        IN /\ pp' = pp1 /\ bp' = bp1 /\ cancels' = cn1 /\ msg' = m1
@@ -206,6 +223,7 @@ Finish(ab) ==      \* ab \subseteq {"Empty", "Mark"}: as-built alternatives take
                   /\ work' = IF "Empty" \in ab THEN work ELSE (work \/ pend1 > 0)
              ELSE pc' = "send" /\ UNCHANGED work
     /\ UNCHANGED <<bAt, pAt, seq, sigs, rbReq, snapC, snapP, snapB, doneC, nP, nB, size, held, cwP, cwB, sh, maxN, ops, rbs>>
+
 \* the receiver's want-list
 Apply(h, m) == [c \in Cids |-> IF m[c].t = 0 THEN h[c]
                                ELSE IF m[c].cancel THEN 0
@@ -265,7 +283,7 @@ ProducerStep ==
 LoopStep == \/ StartCycle \/ Snapshot \/ BuildEntry \/ Send \/ OnSent \/ Count
             \/ DoRefresh(FALSE)
             \/ ("Refresh" \in AsBuilt /\ DoRefresh(TRUE))
-            \/ \E ab \in SUBSET (AsBuilt \cap {"Empty", "Mark"}) : Finish(ab)
+            \/ \E ab \in SUBSET (AsBuilt \cap {"Empty", "Mark", "Merge"}) : Finish(ab)
             \/ (rbs < MaxRb /\ RebroadcastReq)
 Next == ProducerStep \/ Signal \/ LoopStep
 Spec == Init /\ [][Next]_vars
